@@ -32,7 +32,7 @@ TEMPLATES = [
     ("O,P,Q,P", 2),
 ]
 
-INVALID = ["nan-X", "inf-X", "nan-y", "rows-mismatch", "too-few", "1d-X", "single-class", "empty", "bad-weights"]
+INVALID = ["nan-X", "inf-X", "nan-y", "rows-mismatch", "too-few", "1d-X", "single-class", "empty", "bad-weights", "tiny-negative"]
 
 
 def _invalid_data(kind, spec, cfg, data):
@@ -53,6 +53,14 @@ def _invalid_data(kind, spec, cfg, data):
         X[n // 2, 0] = numpy.nan
     elif kind == "inf-X":
         X[n // 3, -1] = numpy.inf
+    elif kind == "tiny-negative":
+        # rounding noise such as 0.3 - (0.1 + 0.2): rejected by estimators that
+        # want non-negative data, plain data for the others; never "cleaned" in
+        # the caller's array
+        if X.dtype.kind != "f":
+            return None
+        X[n // 2, 0] = -5.5e-17
+        X[0, -1] = -1e-18
     elif kind == "nan-y":
         if y is None or y.dtype.kind != "f":
             return None
